@@ -159,7 +159,18 @@ func (b *heapBox[T]) removeExact(x T) bool {
 	return false
 }
 
+// Step = Do (the operation on the real object and the reference, return values compared)
+// followed by Content (the cheap observer comparison that runs on every transition).
 func (b *heapBox[T]) Step(o Op) *Viol {
+	if v := b.Do(o); v != nil {
+		return v
+	}
+	return b.content()
+}
+
+func (b *heapBox[T]) Content() *Viol { return b.content() }
+
+func (b *heapBox[T]) Do(o Op) *Viol {
 	p := tag("C06")
 	var zero T
 	switch o.N {
@@ -222,7 +233,7 @@ func (b *heapBox[T]) Step(o Op) *Viol {
 	default:
 		panic("heap op " + o.N)
 	}
-	return b.content()
+	return nil
 }
 
 func (b *heapBox[T]) content() *Viol {
@@ -352,12 +363,23 @@ func (b *heapBox[T]) LoadRef(data []byte) bool {
 
 // ---- configuration ----------------------------------------------------------------
 
-func heSys(kind, cmpN string, n, pmax int, jsonLen int) *HeapSys[HE] {
+func heSys(kind, cmpN string, n, pmax int, jsonLen int) *HeapSys[HE] { return heSysIDs(kind, cmpN, n, pmax, jsonLen, 2) }
+
+// heSysIDs: ids = number of distinguishable elements per priority (1: no ties between
+// distinguishable elements; used by the deep jobs that need many elements).
+func heSysIDs(kind, cmpN string, n, pmax int, jsonLen int, ids int) *HeapSys[HE] {
 	var u []HE
 	for p := 1; p <= pmax; p++ {
-		for id := 0; id < 2; id++ {
+		for id := 0; id < ids; id++ {
 			u = append(u, HE{p, id})
 		}
+	}
+	if ids == 1 {
+		cmp := func(a, b HE) int { return a.P - b.P }
+		if cmpN == "max" {
+			cmp = func(a, b HE) int { return (b.P - a.P) * 3 }
+		}
+		return genHeapSys(kind, cmpN, n, u, HE{-9, -9}, cmp, pmax, func(p, pos int) int { return p - 1 }, jsonLen)
 	}
 	cmp := func(a, b HE) int { return a.P - b.P }
 	if cmpN == "max" {
